@@ -338,6 +338,8 @@ def inv_king(ctx):
     # a king is present: accepted positions have both kings and the side not to move is not in check (C06), and a king can never be captured
     # afterwards because check detection is exact, from scratch and incrementally (C03.R5, R6), so legal moves never leave the mover in check
     v = sub_rules(ctx, "C06", {"C06.R2", "C06.R3"}) + sub_rules(ctx, "C05", {"C05.R7"}) + sub_rules(ctx, "C03", {"C03.R5", "C03.R6"})
+    # ... and nothing asks for the king's square before the position has been accepted (the refresh of pinned/checkers runs after validate)
+    v += [x for x in sub_rules(ctx, "C03", {"C03.R4"}) if "validated first" in x.key]
     return [f"{x.rule}: {x.what[:160]}" for x in v]
 
 
@@ -564,7 +566,7 @@ def inv_promo(ctx):
 
 
 def inv_partition(ctx):
-    return [f"{x.rule}: {x.what[:160]}" for x in sub_rules(ctx, "C04", {"C04.R2"})]
+    return [f"{x.rule}: {x.what[:160]}" for x in sub_rules(ctx, "C04", {"C04.R2", "C04.R7"})]
 
 
 def inv_hasher(ctx):
